@@ -61,6 +61,8 @@ pub fn child_main(args: &[String]) -> i32 {
     let from: usize = args.get(3).and_then(|s| s.parse().ok()).unwrap_or(0);
     let until: usize = args.get(4).and_then(|s| s.parse().ok()).unwrap_or(usize::MAX);
     let snap_out = args.get(5).map(|s| s == "snap").unwrap_or(false);
+    // "snap@J": a snapshot right after step J (into <dir>.snap) and one after the last step (into <dir>.snap2)
+    let snap_at: Option<usize> = args.get(5).and_then(|s| s.strip_prefix("snap@")).and_then(|s| s.parse().ok());
     if args.get(6).map(|s| s == "trace").unwrap_or(false) {
         // ask to be traced by the parent and wait for it (done here rather than in the parent's pre_exec, which
         // would make the parent fork() its whole address space instead of using the fast spawn path)
@@ -119,8 +121,26 @@ pub fn child_main(args: &[String]) -> i32 {
         marker_syscall(2);
         let step = w.apply(st);
         note(&format!("{} {}\n", i, step.res.class()));
+        if snap_at == Some(i) {
+            let text = match w.snapshot() {
+                Ok(s) => serde_json::to_string(&s).unwrap_or_default(),
+                Err(e) => format!("SNAPSHOT-ERROR {e}"),
+            };
+            let mut sp = dir.as_os_str().to_owned();
+            sp.push(".snap");
+            let _ = std::fs::write(PathBuf::from(sp), text);
+        }
     }
     marker_syscall(3);
+    if snap_at.is_some() {
+        let text = match w.snapshot() {
+            Ok(s) => serde_json::to_string(&s).unwrap_or_default(),
+            Err(e) => format!("SNAPSHOT-ERROR {e}"),
+        };
+        let mut sp = dir.as_os_str().to_owned();
+        sp.push(".snap2");
+        let _ = std::fs::write(PathBuf::from(sp), text);
+    }
     if snap_out {
         // fault-injection runs: what this very store object shows after the last step
         let text = match w.snapshot() {
@@ -228,7 +248,7 @@ pub enum TraceMode {
 /// them, plus whatever the process wrote through its shared mappings since. An injected failure replaces the
 /// call by an invalid one at its entry stop and overwrites the return value at its exit stop.
 #[cfg(all(target_os = "linux", target_arch = "x86_64"))]
-pub fn run_child_traced(script_path: &Path, dir: &Path, from: usize, until: usize, mode: TraceMode, snap: bool) -> Result<Traced, String> {
+pub fn run_child_traced(script_path: &Path, dir: &Path, from: usize, until: usize, mode: TraceMode, snap: &str) -> Result<Traced, String> {
     const RAX: usize = 10 * 8;
     const RDI: usize = 14 * 8;
     const ORIG_RAX: usize = 15 * 8;
@@ -241,7 +261,7 @@ pub fn run_child_traced(script_path: &Path, dir: &Path, from: usize, until: usiz
         .arg(dir)
         .arg(from.to_string())
         .arg(until.to_string())
-        .arg(if snap { "snap" } else { "-" })
+        .arg(if snap.is_empty() { "-" } else { snap })
         .arg("trace")
         .stdout(std::process::Stdio::null())
         .stderr(std::process::Stdio::null());
@@ -367,7 +387,7 @@ pub fn run_child_traced(script_path: &Path, dir: &Path, from: usize, until: usiz
 }
 
 #[cfg(not(all(target_os = "linux", target_arch = "x86_64")))]
-pub fn run_child_traced(_: &Path, _: &Path, _: usize, _: usize, _: TraceMode, _: bool) -> Result<Traced, String> {
+pub fn run_child_traced(_: &Path, _: &Path, _: usize, _: usize, _: TraceMode, _: &str) -> Result<Traced, String> {
     Err("system-call tracing is implemented for linux/x86_64 only".into())
 }
 
@@ -641,7 +661,7 @@ impl Prop for C13 {
                 let _ = copy_dir(&start, &sdry);
                 let _ = std::fs::copy(progress_path(&start), progress_path(&sdry));
             }
-            match run_child_traced(&script_path, &sdry, prefix, usize::MAX, TraceMode::Dry, false) {
+            match run_child_traced(&script_path, &sdry, prefix, usize::MAX, TraceMode::Dry, "") {
                 Ok(t) if t.exit == Some(0) => sys_calls = t.syscalls.iter().map(|x| x.0).collect(),
                 Ok(t) => {
                                         out.label(format!("skipped:traced dry run exit {:?} killed {}", t.exit, t.killed));
@@ -671,7 +691,7 @@ impl Prop for C13 {
                 let _ = std::fs::copy(progress_path(&start), progress_path(&dir));
             }
             let run = if sys > 0 {
-                match run_child_traced(&script_path, &dir, prefix, usize::MAX, TraceMode::KillAt(sys), false) {
+                match run_child_traced(&script_path, &dir, prefix, usize::MAX, TraceMode::KillAt(sys), "") {
                     Ok(t) => ChildRun { killed: t.killed, exit: t.exit, stdout: String::new() },
                     Err(e) => {
                                                 out.label(format!("skipped:tracing unavailable:{}", &e[..e.len().min(60)]));
@@ -869,15 +889,19 @@ fn fallible(nr: i64) -> bool {
 }
 
 /// Runs `ops` once in process (reference), then for up to `max_faults` of the fallible system calls the history
-/// makes inside its steps: a fresh directory, the child run under the tracer up to and including the step the
-/// call belongs to, that one call failing with ENOSPC / EIO. Oracle (C12): if the step was a store call and
-/// returned an error, the snapshot the child takes from its still open store equals the reference snapshot
-/// before the step.
-pub fn inject_faults(ops: &[Op], max_faults: usize, out: &mut Outcome) {
+/// makes inside its steps: a fresh directory (on tmpfs, or with `disk` on the block file system), the child run
+/// under the tracer through the WHOLE history, that one call failing with ENOSPC / EIO. The child snapshots its
+/// still open store right after the step the call belongs to and again after the last step.
+/// Oracle: (a) if the step was a store call and returned an error it does not return otherwise, the first snapshot
+/// equals the reference snapshot before the step (C12); (b) the last snapshot equals the reference run of the
+/// history without that step - a failed call leaves no damage that shows later; (c) with `judge_ok`: a step that
+/// returns what it returns without the failure must have had its full effect (first snapshot = reference after
+/// the step, last snapshot = reference end state).
+pub fn inject_faults(prop: &str, ops: &[Op], max_faults: usize, disk: bool, judge_ok: bool, out: &mut Outcome) {
     let mut refw = match World::new(0) {
         Ok(w) => w,
         Err(f) => {
-            out.fail(format!("C12:{}", f.key), f.detail);
+            out.fail(format!("{prop}:{}", f.key), f.detail);
             return;
         }
     };
@@ -896,53 +920,50 @@ pub fn inject_faults(ops: &[Op], max_faults: usize, out: &mut Outcome) {
         return;
     }
     let script = Script { events: refw.events.clone(), steps: steps.clone() };
-    let mut snapw = match World::new(0) {
-        Ok(w) => w,
-        Err(f) => {
-            out.fail(format!("C12:{}", f.key), f.detail);
-            return;
-        }
+    let universe = |w: &mut World| {
+        w.events = script.events.clone();
+        w.owned = script.events.iter().map(|e| e.to_owned_event().unwrap()).collect();
+        w.by_id = script.events.iter().enumerate().map(|(i, e)| (e.id.clone(), i)).collect();
     };
-    snapw.events = refw.events.clone();
-    snapw.owned = script.events.iter().map(|e| e.to_owned_event().unwrap()).collect();
-    snapw.by_id = refw.by_id.clone();
-    let mut snaps: Vec<BTreeMap<String, String>> = Vec::new();
-    match snapw.snapshot() {
-        Ok(s) => snaps.push(s),
-        Err(_) => return,
-    }
-    for st in steps.iter() {
-        let _ = snapw.apply(st);
-        match snapw.snapshot() {
-            Ok(s) => snaps.push(s),
-            Err(_) => return,
+    // reference snapshots after every prefix; `skip`: the history without one step
+    let replay = |skip: Option<usize>| -> Option<Vec<BTreeMap<String, String>>> {
+        let mut w = World::new(0).ok()?;
+        universe(&mut w);
+        let mut snaps = vec![w.snapshot().ok()?];
+        for (i, st) in steps.iter().enumerate() {
+            if Some(i) != skip {
+                let _ = w.apply(st);
+            }
+            snaps.push(w.snapshot().ok()?);
         }
-    }
-    drop(snapw);
+        Some(snaps)
+    };
+    let Some(snaps) = replay(None) else { return };
     drop(refw);
-    let area = match tempfile::Builder::new().prefix("c12f").tempdir_in(scratch_base()) {
+    let base = if disk { scratch_base_disk() } else { scratch_base() };
+    let area = match tempfile::Builder::new().prefix("c12f").tempdir_in(base) {
         Ok(d) => d,
         Err(e) => {
-            out.fail("C12:harness:tempdir", e.to_string());
+            out.fail(format!("{prop}:harness:tempdir"), e.to_string());
             return;
         }
     };
     let script_path = write_script(area.path(), &script);
-    // every child parses the script and serialises a snapshot: histories with events of hundreds of KB are left to
+    // every child parses the script and serialises snapshots: histories with events of hundreds of KB are left to
     // the in-process part of the check
     if std::fs::metadata(&script_path).map(|m| m.len()).unwrap_or(0) > 300_000 {
         out.label("fault-injection-skipped:large-script");
         return;
     }
     let dry = area.path().join("dry");
-    let calls = match run_child_traced(&script_path, &dry, 0, usize::MAX, TraceMode::Dry, false) {
+    let calls = match run_child_traced(&script_path, &dry, 0, usize::MAX, TraceMode::Dry, "") {
         Ok(t) if t.exit == Some(0) => t.syscalls,
         Ok(t) => {
-                        out.label(format!("skipped:traced dry run exit {:?} killed {}", t.exit, t.killed));
+            out.label(format!("skipped:traced dry run exit {:?} killed {}", t.exit, t.killed));
             return;
         }
         Err(e) => {
-                        out.label(format!("skipped:tracing unavailable:{}", &e[..e.len().min(60)]));
+            out.label(format!("skipped:tracing unavailable:{}", &e[..e.len().min(60)]));
             return;
         }
     };
@@ -952,7 +973,7 @@ pub fn inject_faults(ops: &[Op], max_faults: usize, out: &mut Outcome) {
     if cands.is_empty() {
         return;
     }
-    out.label("fault-injection-history");
+    out.label(if disk { "fault-injection-history:block-fs" } else { "fault-injection-history:tmpfs" });
     // a failure that belongs to the recorded finding is reported only if nothing else turns up in this history
     let mut deferred: Option<(String, String)> = None;
     let n = max_faults.min(cands.len());
@@ -966,112 +987,122 @@ pub fn inject_faults(ops: &[Op], max_faults: usize, out: &mut Outcome) {
         let errno = if ci % 2 == 0 { libc::ENOSPC } else { libc::EIO };
         let name = syscall_name(nr);
         let dir = area.path().join(format!("f{ci}"));
-        let run = match run_child_traced(&script_path, &dir, 0, j + 1, TraceMode::FailAt(ci as u64 + 1, errno), true) {
+        let run = match run_child_traced(&script_path, &dir, 0, usize::MAX, TraceMode::FailAt(ci as u64 + 1, errno), &format!("snap@{j}")) {
             Ok(t) => t,
             Err(e) => {
-                                out.label(format!("skipped:tracing unavailable:{}", &e[..e.len().min(60)]));
+                out.label(format!("skipped:tracing unavailable:{}", &e[..e.len().min(60)]));
                 return;
             }
         };
         let _ = FAULTS_INJECTED.fetch_add(1, Ordering::SeqCst);
         out.sub_evals += 1;
-        let mut sp = dir.as_os_str().to_owned();
-        sp.push(".snap");
-        let snap_path = PathBuf::from(sp);
-        let cleanup = |dir: &Path, snap_path: &Path| {
-            let _ = std::fs::remove_dir_all(dir);
-            let _ = std::fs::remove_file(progress_path(dir));
-            let _ = std::fs::remove_file(snap_path);
+        let sibling = |ext: &str| {
+            let mut sp = dir.as_os_str().to_owned();
+            sp.push(ext);
+            PathBuf::from(sp)
+        };
+        let (snap_path, snap2_path) = (sibling(".snap"), sibling(".snap2"));
+        let cleanup = || {
+            let _ = std::fs::remove_dir_all(&dir);
+            let _ = std::fs::remove_file(progress_path(&dir));
+            let _ = std::fs::remove_file(&snap_path);
+            let _ = std::fs::remove_file(&snap2_path);
         };
         if run.exit != Some(0) {
             // the process died of the failure (an unwrap on an I/O error, SIGBUS, ...): not a returned error
             *FAULT_HIST.lock().unwrap().entry(format!("{name}:child-died")).or_insert(0) += 1;
             out.label("fault:child-died");
-            cleanup(&dir, &snap_path);
+            cleanup();
             continue;
         }
+        let is_store = matches!(steps[j], Concrete::Store(_) | Concrete::StoreMany(_) | Concrete::Pressure(_));
         let (_, done) = read_progress(&dir);
         let class = done.iter().find(|(i, _)| *i == j).map(|(_, c)| c.clone()).unwrap_or_default();
         let snap_text = std::fs::read_to_string(&snap_path).unwrap_or_default();
-        let is_store = matches!(steps[j], Concrete::Store(_) | Concrete::StoreMany(_) | Concrete::Pressure(_));
+        let snap2_text = std::fs::read_to_string(&snap2_path).unwrap_or_default();
         let failed = !matches!(class.as_str(), "ok" | "skipped" | "");
-        let injected_changed_outcome = class != ref_res[j].class();
-        *FAULT_HIST.lock().unwrap().entry(format!("{name}:{}", if injected_changed_outcome { class.as_str() } else { "tolerated" })).or_insert(0) += 1;
-        if is_store && failed && injected_changed_outcome {
-            out.label("fault:store-failed");
-            out.sub_nontrivial += 1;
-            out.nontrivial = true;
-            if snap_text.starts_with("SNAPSHOT-ERROR") && snap_text.contains("MDB_PANIC") {
-                // LMDB declares the environment fatally broken when its meta-page write fails: nothing can be
-                // looked up through this store object any more. What a fresh process sees must still be the state
-                // before the call.
-                let reopened = World::at(Dir { tmp: None, p: dir.clone() }, 0).and_then(|mut w| {
-                    w.events = script.events.clone();
-                    w.owned = script.events.iter().map(|e| e.to_owned_event().unwrap()).collect();
-                    w.by_id = script.events.iter().enumerate().map(|(i, e)| (e.id.clone(), i)).collect();
-                    w.snapshot().map_err(|e| Fail { key: format!("snapshot-error:{e}"), detail: String::new() })
-                });
-                match reopened {
-                    Ok(snap) => {
-                        if let Some((cat, d)) = diff_snapshots(&snaps[j], &snap) {
-                            out.fail(
-                                format!("C12:changed-by-failed-store:injected-{name}:after-reopen:{cat}"),
-                                format!("step {j} {:?}: system call #{} ({name}) made to fail with errno {errno}; the store call returned '{class}' and the environment is in LMDB's fatal state; after reopening the directory the store is not as before the call: {d}", steps[j], ci + 1),
-                            );
-                            cleanup(&dir, &snap_path);
-                            return;
-                        }
-                    }
-                    Err(f) => {
-                        out.fail(
-                            format!("C12:reopen-fails-after-injected-failure:{name}:{}", f.key),
-                            format!("step {j} {:?}: system call #{} ({name}) made to fail with errno {errno}; the store call returned '{class}'; reopening the directory fails: {}", steps[j], ci + 1, f.detail),
-                        );
-                        cleanup(&dir, &snap_path);
+        let outcome_changed = class != ref_res[j].class();
+        *FAULT_HIST.lock().unwrap().entry(format!("{name}:{}", if outcome_changed { class.as_str() } else { "tolerated" })).or_insert(0) += 1;
+        let what = format!("step {j} {:?}: system call #{} of the history ({name}) made to fail with errno {errno}; the call returned '{class}' (without the failure: '{}')", steps[j], ci + 1, ref_res[j].class());
+        if snap_text.starts_with("SNAPSHOT-ERROR") && snap_text.contains("MDB_PANIC") {
+            // LMDB declares the environment fatally broken when its meta-page write fails: nothing can be looked up
+            // through this store object any more. What a fresh process sees must still be the state before the call
+            // (the later steps of the history all failed on the broken environment).
+            let reopened = World::at(Dir { tmp: None, p: dir.clone() }, 0).and_then(|mut w| {
+                universe(&mut w);
+                w.snapshot().map_err(|e| Fail { key: format!("snapshot-error:{e}"), detail: String::new() })
+            });
+            match reopened {
+                // (a vanish is a sequence of removals with a transaction each: part of it may be done)
+                Ok(_) if !is_store => {}
+                Ok(snap) => {
+                    if let Some((cat, d)) = diff_snapshots(&snaps[j], &snap) {
+                        out.fail(format!("{prop}:changed-by-failed-store:injected-{name}:after-reopen:{cat}"), format!("{what}; the environment is in LMDB's fatal state; after reopening the directory the store is not as before the call: {d}"));
+                        cleanup();
                         return;
                     }
                 }
-                out.label("fault:environment-fatal");
-                if deferred.is_none() {
-                    deferred = Some((
-                        "C12:store-object-unusable-after-failed-meta-page-write".to_string(),
-                        format!(
-                            "step {j} {:?}: system call #{} of the history ({name}, LMDB's meta-page write) made to fail with errno {errno}; the store call returned '{class}', and from then on every lookup through the same store object fails ({}); a reopened store shows exactly the state before the call",
-                            steps[j],
-                            ci + 1,
-                            snap_text.trim_start_matches("SNAPSHOT-ERROR ")
-                        ),
-                    ));
+                Err(f) => {
+                    out.fail(format!("{prop}:reopen-fails-after-injected-failure:{name}:{}", f.key), format!("{what}; reopening the directory fails: {}", f.detail));
+                    cleanup();
+                    return;
                 }
-                cleanup(&dir, &snap_path);
-                continue;
             }
-            if snap_text.starts_with("SNAPSHOT-ERROR") || snap_text.is_empty() {
-                out.fail(
-                    format!("C12:observe-error-after-injected-failure:{name}"),
-                    format!("step {j} {:?}: system call #{} ({name}) made to fail with errno {errno}; the store call returned '{class}', afterwards looking at the store fails: {snap_text}", steps[j], ci + 1),
-                );
-                cleanup(&dir, &snap_path);
-                return;
-            }
-            let snap: BTreeMap<String, String> = serde_json::from_str(&snap_text).unwrap_or_default();
-            if let Some((cat, d)) = diff_snapshots(&snaps[j], &snap) {
-                out.fail(
-                    format!("C12:changed-by-failed-store:injected-{name}:{cat}"),
+            out.label("fault:environment-fatal");
+            // (the finding itself is C12's: other callers only note it)
+            if deferred.is_none() && prop == "C12" {
+                deferred = Some((
+                    "C12:store-object-unusable-after-failed-meta-page-write".to_string(),
                     format!(
-                        "step {j} {:?}: system call #{} of the history ({name}) made to fail with errno {errno}; the store call returned '{class}' (without the failure: '{}'), but the store is not as before the call: {d}",
-                        steps[j],
-                        ci + 1,
-                        ref_res[j].class()
+                        "{what} (LMDB's meta-page write), and from then on every lookup through the same store object fails ({}); a reopened store shows exactly the state before the call",
+                        snap_text.trim_start_matches("SNAPSHOT-ERROR ")
                     ),
-                );
-                cleanup(&dir, &snap_path);
+                ));
+            }
+            cleanup();
+            continue;
+        }
+        if snap_text.starts_with("SNAPSHOT-ERROR") || snap_text.is_empty() || snap2_text.starts_with("SNAPSHOT-ERROR") || snap2_text.is_empty() {
+            out.fail(format!("{prop}:observe-error-after-injected-failure:{name}"), format!("{what}; afterwards looking at the store fails: {} / {}", &snap_text[..snap_text.len().min(200)], &snap2_text[..snap2_text.len().min(200)]));
+            cleanup();
+            return;
+        }
+        let snap: BTreeMap<String, String> = serde_json::from_str(&snap_text).unwrap_or_default();
+        let snap2: BTreeMap<String, String> = serde_json::from_str(&snap2_text).unwrap_or_default();
+        if is_store && failed && outcome_changed {
+            out.label("fault:store-failed");
+            out.sub_nontrivial += 1;
+            out.nontrivial = true;
+            if let Some((cat, d)) = diff_snapshots(&snaps[j], &snap) {
+                out.fail(format!("{prop}:changed-by-failed-store:injected-{name}:{cat}"), format!("{what}, but the store is not as before the call: {d}"));
+                cleanup();
                 return;
             }
-        } else if is_store {
+            // later: the history without the failed step
+            if let Some(alt) = replay(Some(j)) {
+                if let Some((cat, d)) = diff_snapshots(&alt[steps.len()], &snap2) {
+                    out.fail(
+                        format!("{prop}:latent-damage-after-failed-store:injected-{name}:{cat}"),
+                        format!("{what} and changed nothing then; but after the remaining {} steps the store differs from a run of the same history without that step: {d}", steps.len() - j - 1),
+                    );
+                    cleanup();
+                    return;
+                }
+            }
+        } else if !outcome_changed {
             out.label("fault:tolerated");
+            if judge_ok {
+                if let Some((cat, d)) = diff_snapshots(&snaps[j + 1], &snap).or_else(|| diff_snapshots(&snaps[steps.len()], &snap2)) {
+                    out.fail(
+                        format!("{prop}:injected-failure-swallowed:{name}:{cat}"),
+                        format!("{what}, i.e. it reported what it reports without the failure, but the store is not in the state that result stands for: {d}"),
+                    );
+                    cleanup();
+                    return;
+                }
+            }
         }
-        cleanup(&dir, &snap_path);
+        cleanup();
     }
     if let Some((k, d)) = deferred {
         out.fail(k, d);
